@@ -226,3 +226,11 @@ Proof.
   apply p3opt_loop_eq; [assumption|assumption|].
   intros f k oo Hf Hp [<-|Hin]; [now left|right; now apply Hback].
 Qed.
+
+(* non-vacuity witnesses used by Props/C02.v *)
+Lemma c02_example :
+  json_name [102;111;111;95;98;97;114] = [102;111;111;66;97;114] /\
+  map_entry [102;111;111;95;98;97;114] = [70;111;111;66;97;114;69;110;116;114;121] /\
+  json_name [95;120] = [88] /\
+  oo_name [[97]; [95;97]; [88;95;97]] [97] = Some [88;88;95;97].
+Proof. repeat split; vm_compute; reflexivity. Qed.
